@@ -2,6 +2,7 @@ package props
 
 import (
 	"bytes"
+	"crypto/sha256"
 	"fmt"
 	"io"
 	"os"
@@ -29,6 +30,17 @@ type C14Case struct {
 
 func init() {
 	register(&Check{ID: "C14", Level: "model_checking", Run: runC14})
+	scenario("C14", "history", func(r *core.Run, c core.Case) {
+		var p map[string]int
+		params(c, &p)
+		self, _ := os.Executable()
+		a, b := fmt.Sprint(p["I"]), fmt.Sprint(p["J"])
+		h0, _ := exec.Command(self, "c14-seq", "-", b).Output()
+		h1, err := exec.Command(self, "c14-seq", a, b).Output()
+		if err != nil || string(h0) != string(h1) {
+			r.Violate(c, "history → result depends on an earlier instance", fmt.Sprintf("fresh process: body %s, then body %s", a, b), fmt.Sprintf("%s vs pristine %s (%v)", strings.TrimSpace(string(h1)), strings.TrimSpace(string(h0)), err), "equal")
+		}
+	})
 	scenario("C14", "schedule", func(r *core.Run, c core.Case) {
 		var p C14Case
 		params(c, &p)
@@ -215,8 +227,70 @@ func c14Scenarios() []c14Scn {
 		// several KiB of input: hash-table collisions (and with them any dependence of the output on
 		// recycled or shared tables) only show beyond a few hundred bytes
 		{"xzW(64 KiB dict)|xzW(2 MiB dict) 8 KiB inputs", []c14Body{c14XZWriter(xz.WriterConfig{DictCap: 1 << 16}, c14Long[:8000]), c14XZWriter(xz.WriterConfig{DictCap: 2 << 20}, c14Long[1000:9000])}},
+		// a writer whose first chunk is stored uncompressed (incompressible bytes, then Flush) next to a
+		// writer with the same properties: state shared per Properties value shows here
+		{"lzma2W(raw first chunk)|lzma2W same props", []c14Body{c14LZMA2Writer(lzma.Writer2Config{DictCap: 4096}, append(append([]byte(nil), randBytes(79, 60)...), t[:60]...)), c14LZMA2Writer(lzma.Writer2Config{DictCap: 4096}, t[30:150])}},
+		{"xzW(CRC32, aligned block)|xzW(CRC32)", []c14Body{c14XZWriter(xz.WriterConfig{DictCap: 4096, CheckSum: xz.CRC32}, randBytes(80, 40)), c14XZWriter(xz.WriterConfig{DictCap: 4096, CheckSum: xz.CRC32}, randBytes(80, 42))}},
 		{"lzmaW|lzmaW same props (bufio)", []c14Body{c14LZMAWriter(lzma.WriterConfig{DictCap: 4096}, t[:90], false), c14LZMAWriter(lzma.WriterConfig{DictCap: 4096}, t[10:100], false)}},
 	}
+}
+
+// c14Menu is the body menu of the history check: every ordered pair (i, j) is executed in a
+// fresh process - body i, then body j - and the result of j must equal its result in a process
+// where nothing ran before it (state that survives an instance shows as a difference).
+func c14Menu() []c14Body {
+	t := c14Text
+	rt := append(append([]byte(nil), randBytes(81, 60)...), t[:100]...)
+	big := append(append([]byte(nil), randBytes(82, 70000)...), textBytes(82, 3000)...)
+	stream := mustLibXZ(XZCfg{DictCap: 4096, BlockSize: 90, Check: 1}, t[:150])
+	l2 := mustLibLZMA2(L2Cfg{DictCap: 4096}, t[:140], []L2Step{{"w", 70}, {"f", 0}})
+	lz := mustLibLZMA(LZCfg{DictCap: 4096}, t[:120])
+	m := []c14Body{
+		c14XZWriter(xz.WriterConfig{DictCap: 4096}, t[:200]),
+		c14XZWriter(xz.WriterConfig{DictCap: 4096, BlockSize: 64}, t[20:250]),
+		c14XZWriter(xz.WriterConfig{DictCap: 1 << 16}, big),
+		c14XZWriter(xz.WriterConfig{DictCap: 2 << 20}, c14Long[:8000]),
+		c14XZWriter(xz.WriterConfig{DictCap: 1 << 16}, c14Long[1000:9000]),
+		c14XZWriter(xz.WriterConfig{DictCap: 4096, Matcher: lzma.BinaryTree}, t[:180]),
+		c14XZWriter(xz.WriterConfig{DictCap: 4096, CheckSum: xz.SHA256}, t[10:190]),
+		c14XZWriter(xz.WriterConfig{DictCap: 4096, NoCheckSum: true}, t[5:170]),
+		c14XZWriter(xz.WriterConfig{DictCap: 4096, Properties: &lzma.Properties{LC: 0, LP: 2, PB: 1}}, t[:150]),
+		c14XZWriter(xz.WriterConfig{DictCap: 4096, Properties: &lzma.Properties{LC: 0, LP: 2, PB: 1}}, rt),
+		c14LZMA2Writer(lzma.Writer2Config{DictCap: 4096}, rt),
+		c14LZMA2Writer(lzma.Writer2Config{DictCap: 4096}, t[30:150]),
+		c14LZMAWriter(lzma.WriterConfig{DictCap: 4096}, t[:90], false),
+		c14LZMAWriter(lzma.WriterConfig{DictCap: 4096, Size: 60}, t[40:100], true),
+		c14LZMAWriter(lzma.WriterConfig{DictCap: 4096, Matcher: lzma.BinaryTree}, t[20:90], false),
+		c14XZReader(stream),
+		c14LZMA2Reader(l2),
+		{kind: "lzmaR", run: func(point func()) []byte {
+			out, err, _, _ := lzmaDecode(lz, 4096)
+			return append(out, []byte("|"+errStr(err))...)
+		}},
+	}
+	// four CRC32 writers with raw payloads of consecutive lengths: one of them has a block whose
+	// compressed size is a multiple of four (no block padding)
+	for n := 40; n < 44; n++ {
+		m = append(m, c14XZWriter(xz.WriterConfig{DictCap: 4096, CheckSum: xz.CRC32}, randBytes(83, n)))
+	}
+	return m
+}
+
+// C14SeqMain is the child of the history check: `vcheck c14-seq <i|-> <j>` runs body i (if
+// any), then body j, and prints the SHA-256 of j's result.
+func C14SeqMain(args []string) int {
+	m := c14Menu()
+	var i, j int
+	if len(args) != 2 {
+		return 2
+	}
+	fmt.Sscan(args[1], &j)
+	if args[0] != "-" {
+		fmt.Sscan(args[0], &i)
+		m[i].run(func() {})
+	}
+	fmt.Printf("%x\n", sha256.Sum256(m[j].run(func() {})))
+	return 0
 }
 
 func c14Solo(sc c14Scn) [][]byte {
@@ -257,6 +331,49 @@ func c14Exec(r *core.Run, sc c14Scn, solo [][]byte, p C14Case, x *core.X) {
 	r.Eval(core.Hash(results))
 	r.Nontrivial(core.Hash(sc.name, compressTrace(s.Trace)))
 	r.Trace(1)
+}
+
+// c14History runs every ordered pair (i, j) of c14Menu in a fresh process and compares the result
+// of j with its result in a process where nothing ran before.
+func c14History(r *core.Run) {
+	self, err := os.Executable()
+	if err != nil {
+		r.CapHit("history check not run: " + err.Error())
+		return
+	}
+	n := len(c14Menu())
+	child := func(a, b string) (string, error) {
+		out, err := exec.Command(self, "c14-seq", a, b).Output()
+		return strings.TrimSpace(string(out)), err
+	}
+	pristine := make([]string, n)
+	for j := 0; j < n; j++ {
+		h, err := child("-", fmt.Sprint(j))
+		if err != nil || len(h) != 64 {
+			r.Violate(core.MkCase("C14", "history", map[string]int{"I": -1, "J": j}), "history → body fails in a fresh process", fmt.Sprintf("body %d alone", j), fmt.Sprint(err), "a result")
+			return
+		}
+		pristine[j] = h
+	}
+	r.Parallel(n*n, "history pairs", func(k int) {
+		i, j := k/n, k%n
+		h, err := child(fmt.Sprint(i), fmt.Sprint(j))
+		m := c14Menu()
+		desc := fmt.Sprintf("fresh process: body %d (%s) runs to completion, then body %d (%s)", i, m[i].kind, j, m[j].kind)
+		cs := core.MkCase("C14", "history", map[string]int{"I": i, "J": j})
+		switch {
+		case err != nil:
+			r.Violate(cs, fmt.Sprintf("history → %s after %s fails", m[j].kind, m[i].kind), desc, err.Error(), "the result of a fresh process")
+		case h != pristine[j]:
+			r.Violate(cs, fmt.Sprintf("history → %s result depends on an earlier %s instance", m[j].kind, m[i].kind), desc, "result differs from the one in a process where nothing ran before", "deterministic function of configuration and input")
+		}
+		r.Eval(core.Hash("history", i, j, h))
+		r.Nontrivial(core.Hash("history", i, j))
+		r.Trace(1)
+	})
+	r.Extra("history_pairs", n*n)
+	r.State("history")
+	r.Trans(fmt.Sprintf("history: %d ordered pairs of %d bodies, each in a fresh process", n*n, n))
 }
 
 func compressTrace(t []int) string {
@@ -324,7 +441,7 @@ func runC14(r *core.Run) {
 	if th {
 		bound = 3
 	}
-	r.Rule = fmt.Sprintf("2-3 goroutine bodies, each driving its own xz/LZMA/LZMA2 writer or reader, under a cooperative scheduler; scheduling points: every public call boundary, every call-back into the harness' sink/source (one per sink write / source read, the decoders read byte by byte) and every sync/sync-atomic operation of the repository (routed through an overlay shim); DFS with iterative preemption bounding (bound %d); oracle: every thread's result equals its solo run, outputs decode with the reference, solo runs first and last are byte-identical; plus a separate free-running pass of the same bodies under the race detector with GOMAXPROCS 2/4/16. states = scenarios x preemption counts; non-trivial = distinct (scenario, schedule)", bound)
+	r.Rule = fmt.Sprintf("2-3 goroutine bodies, each driving its own xz/LZMA/LZMA2 writer or reader, under a cooperative scheduler; scheduling points: every public call boundary, every call-back into the harness' sink/source (one per sink write / source read, the decoders read byte by byte) and every sync/sync-atomic operation of the repository (routed through an overlay shim); DFS with iterative preemption bounding (bound %d); oracle: every thread's result equals its solo run, outputs decode with the reference, solo runs first and last are byte-identical; a history check: every ordered pair of a menu of 22 bodies (all writer kinds, check types, raw first chunks, readers) in a fresh process, the second result must equal its result in a pristine process; plus a separate free-running pass of the same bodies under the race detector with GOMAXPROCS 2/4/16. states = scenarios x preemption counts; non-trivial = distinct (scenario, schedule)", bound)
 	if shimCalls != nil {
 		r.Extra("sync_shim_overlay", "active")
 	} else {
@@ -342,7 +459,12 @@ func runC14(r *core.Run) {
 		// outputs must be decodable by the reference (writers) — determinism vs. the reference content
 		for i, b := range sc.bodies {
 			if strings.HasSuffix(b.kind, "W") {
-				k := bytes.LastIndexByte(solo[i][:minInt(len(solo[i]), 60)], ';')
+				// the result is "<status>;...;" (3 / 2 / 4 fields for xzW / lzmaW / lzma2W) followed by the sink bytes
+				nf := map[string]int{"xzW": 3, "lzmaW": 2, "lzma2W": 4}[b.kind]
+				k := -1
+				for f := 0; f < nf; f++ {
+					k += 1 + bytes.IndexByte(solo[i][k+1:], ';')
+				}
 				stream := solo[i][k+1:]
 				var err error
 				switch b.kind {
@@ -364,7 +486,7 @@ func runC14(r *core.Run) {
 			r.Note(fmt.Sprintf("preemption bound %d for the 3-thread scenario (cost)", bd))
 		}
 		p := C14Case{Scenario: sc.name, Bound: bd}
-		e := &core.Explorer{Bound: bd, Workers: 1, Body: func(x *core.X) { c14Exec(r, sc, solo, p, x) },
+		e := &core.Explorer{Ctx: r, Name: "C14 " + sc.name, Bound: bd, Workers: 1, Body: func(x *core.X) { c14Exec(r, sc, solo, p, x) },
 			Stop: func() bool { return r.Expired("schedule exploration") }}
 		e.Run()
 		totalExec += e.Executions
@@ -387,6 +509,8 @@ func runC14(r *core.Run) {
 		r.Extra("sync_operations_hooked", shimCalls()-before)
 	}
 	r.Sample(map[string]interface{}{"scenario": scns[0].name, "schedule": "T0x3 T1x9 T0x12 T1x4 (thread x consecutive points)"})
+	// history check: all ordered pairs of the body menu, each pair in a fresh process
+	c14History(r)
 	// free-running race pass
 	rb := os.Getenv("VERIF_RACE_BIN")
 	if rb == "" {
